@@ -16,8 +16,11 @@ import (
 	"errors"
 	"fmt"
 	"io"
+	"math"
 	"math/rand"
 	"net"
+	"runtime"
+	"runtime/debug"
 	"sort"
 	"strings"
 	"sync"
@@ -138,6 +141,7 @@ type scenario struct {
 	doCallers  int // callers that use plain Do (not judged for time; they provoke overflows)
 	readTmo    time.Duration
 	batchDelay time.Duration
+	micro      bool // timeouts of 0.2-50 us (and deadlines already past): they expire inside the call's own set-up
 	cfg        tagsrv.Config
 }
 
@@ -192,6 +196,42 @@ func genScenario(idx int, rnd *rand.Rand) *scenario {
 	}
 	return sc
 }
+
+// genMicro: many callers hammer one (sometimes two) connection client(s) of a mute server with
+// deadlines that expire around DoDeadline's own set-up (entry check, channel acquisition under the
+// client's lock, work/timer acquisition), under allocation pressure.
+func genMicro(idx int, rnd *rand.Rand) *scenario {
+	sc := &scenario{idx: idx, mode: "micro-mute", micro: true}
+	sc.cfg.Seed = rnd.Uint64()
+	sc.cfg.MaxBody = 600
+	sc.maxConns = 1
+	if rnd.Intn(5) == 0 {
+		sc.maxConns = 2
+	}
+	sc.maxPending = 1 + rnd.Intn(4)
+	sc.callers = 24 + rnd.Intn(41)
+	sc.perCaller = 40 + rnd.Intn(81)
+	sc.doCallers = []int{0, 0, 1, 2}[rnd.Intn(4)]
+	S, X, N := int(tagsrv.Stall), int(tagsrv.NoAnswer), int(tagsrv.Normal)
+	switch rnd.Intn(3) {
+	case 0:
+		sc.cfg.Weights = w(S, 100)
+	case 1:
+		sc.mode = "micro-mute-close"
+		sc.cfg.Weights = w(S, 70, X, 30)
+	default:
+		sc.mode = "micro-mute-some-answers"
+		sc.cfg.Weights = w(S, 80, N, 20)
+	}
+	return sc
+}
+
+// microTimeout is log-uniform in 0.2 us .. 51 us.
+func microTimeout(rnd *rand.Rand) time.Duration {
+	return time.Duration(200 * math.Pow(2, rnd.Float64()*8))
+}
+
+var gcSink atomic.Pointer[[]byte]
 
 type call struct {
 	ID       string
@@ -299,7 +339,7 @@ func runScenario(sc *scenario, r *mon.Run, cn *canary) *result {
 				func() {
 					defer func() {
 						if p := recover(); p != nil {
-							c.Class, c.Detail = "panic", fmt.Sprintf("%v\n%s", p, mon.Short([]byte(mon.Stacks()), 3000))
+							c.Class, c.Detail = "panic", fmt.Sprintf("%v\n%s", p, mon.Short(debug.Stack(), 3000))
 						}
 					}()
 					req := fasthttp.AcquireRequest()
@@ -321,8 +361,24 @@ func runScenario(sc *scenario, r *mon.Run, cn *canary) *result {
 						c.Returned = time.Now()
 					default:
 						c.Timeout = time.Duration(20+rnd.Intn(81)) * time.Millisecond
+						past := false
+						if sc.micro {
+							c.Timeout = microTimeout(rnd)
+							past = rnd.Intn(10) == 0
+						}
 						s := slots[g]
-						if rnd.Intn(2) == 0 {
+						if past {
+							// the deadline is (all but) over by the time the call starts its set-up
+							c.API = "DoDeadline"
+							c.Deadline = time.Now().Add(c.Timeout / 8)
+							s.mu.Lock()
+							s.id, s.deadline, s.flagged = id, c.Deadline, false
+							s.mu.Unlock()
+							if rnd.Intn(2) == 0 {
+								runtime.Gosched()
+							}
+							err = pc.DoDeadline(req, resp, c.Deadline)
+						} else if rnd.Intn(2) == 0 {
 							c.API = "DoTimeout"
 							c.Deadline = time.Now().Add(c.Timeout)
 							s.mu.Lock()
@@ -359,6 +415,22 @@ func runScenario(sc *scenario, r *mon.Run, cn *canary) *result {
 	// Judged phase: watch the callers; the stall is not released while any of them is still to be judged.
 	jdone := make(chan struct{})
 	go func() { judged.Wait(); close(jdone) }()
+	if sc.micro {
+		go func() { // allocation pressure: GC cycles start while callers are inside their set-up window
+			for i := 0; ; i++ {
+				select {
+				case <-jdone:
+					return
+				default:
+				}
+				b := make([]byte, 64<<10)
+				gcSink.Store(&b)
+				if i%8 == 0 {
+					runtime.Gosched()
+				}
+			}
+		}()
+	}
 	lateBySlot := map[int]*lateCall{}
 watch:
 	for {
@@ -448,6 +520,7 @@ func TestC38(t *testing.T) {
 	r.Rule("scenario = one PipelineClient (MaxConns 1-2, MaxPendingRequests 1-4, ReadTimeout 0/30ms, MaxBatchDelay 0/2ms) against one tag server in one of 12 modes " +
 		"(stall, stall+close, late answer, close, slow 5-200 ms, slow tail, ok, mixed, dial refused / refused with timeout error / refused k times then accepted), 4-32 callers x 1-3 calls, " +
 		"DoTimeout/DoDeadline with 20-100 ms, 0-25% of the callers use plain Do (to evict queued work); case = one call; " +
+		"plus micro-timeout scenarios: 24-64 callers x 40-120 calls with timeouts log-uniform in 0.2-51 us (10% with the deadline all but over before the call) on MaxConns 1 (20%: 2) against a mute server (stall / stall+close / 20% answers), under allocation pressure and sleeps at pc.do.beforeQueue, so that deadlines expire inside the call's own set-up (entry check, channel acquisition, work/timer acquisition); " +
 		"distinct = feature vector (mode, MaxConns, MaxPendingRequests, caller bucket, set of outcomes seen, plain-Do callers present); non-trivial = at least one call of the scenario timed out, overflowed or saw a connection error")
 	r.Assume("slack 1 s; stalls are released only after every judged call has returned or was recorded blocked at deadline + 1 s, and then not before the blocked call is 3 s past its deadline")
 	r.Assume("overload guard: 4 canary goroutines of this process sleep 5 ms in a loop and record how late they wake up. A call that returned by itself later than deadline + 1 s is judged only if no canary woke up more than 100 ms late while the call ran; a call still blocked 3 s past its deadline (freed only by the end of the stall) is judged unless a canary was more than 1 s late. Unjudged late calls are counted (skipped_late_under_load) and reported inconclusive")
@@ -464,11 +537,17 @@ func TestC38(t *testing.T) {
 	defer close(cn.stop)
 
 	n := r.N(360, 10000)
-	mon.Parallel(n, 32, func(i int) {
+	m := r.N(96, 1500) // micro-timeout scenarios: case indices n .. n+m-1
+	judge := func(i int) {
 		if !r.Want(i) {
 			return
 		}
-		sc := genScenario(i, r.Rand("scenario", i))
+		var sc *scenario
+		if i < n {
+			sc = genScenario(i, r.Rand("scenario", i))
+		} else {
+			sc = genMicro(i, r.Rand("micro", i))
+		}
 		res := runScenario(sc, r, cn)
 		desc := fmt.Sprintf("scenario %d mode=%s MaxConns=%d MaxPendingRequests=%d callers=%d(x%d, %d plain Do) ReadTimeout=%v", i, sc.mode, sc.maxConns, sc.maxPending, sc.callers, sc.perCaller, sc.doCallers, sc.readTmo)
 		if res.doStuck {
@@ -518,12 +597,13 @@ func TestC38(t *testing.T) {
 			}
 		}
 		var worst time.Duration
+		njudged := 0
 		for _, c := range res.calls {
 			outcomes[c.Class]++
 			if c.API == "Do" {
 				continue
 			}
-			r.Event("deadline_calls_judged", 1)
+			njudged++
 			if c.LateBy > worst {
 				worst = c.LateBy
 			}
@@ -532,6 +612,12 @@ func TestC38(t *testing.T) {
 			}
 		}
 		r.Event("worst_overrun_ms_sum", int(worst/time.Millisecond))
+		if sc.micro {
+			r.Event("micro_scenarios", 1)
+			r.Event("micro_deadline_calls_judged", njudged)
+		} else {
+			r.Event("deadline_calls_judged", njudged)
+		}
 		// 2. results
 		for _, c := range res.calls {
 			switch c.Class {
@@ -596,10 +682,22 @@ func TestC38(t *testing.T) {
 		if r.WantSample() && nontrivial && outcomes["overflow"] > 0 {
 			r.Sample(map[string]any{"scenario": desc, "outcomes": outcomes, "worst_overrun_ms": worst.Milliseconds(), "server_conns": len(res.snap.Conns), "ids_seen_by_server": len(res.snap.Seen)})
 		}
-	})
+	}
+	mon.Parallel(n, 32, judge)
 	hits := p.Hits()
 	for k, v := range hits {
 		r.Event("hook:"+k, v)
+	}
+	// Second phase: micro-timeout scenarios (CPU bound: fewer at a time). The queue point is perturbed
+	// harder here, so that works are queued, evicted and skipped with their deadline already over.
+	p2 := sched.New(r.Seed() + 1)
+	p2.Intensity = 40
+	p2.MaxSleep = 200 * time.Microsecond
+	p2.Only = map[string]bool{"pc.do.beforeQueue": true, "pc.writer.beforeWrite": true}
+	p2.Install()
+	mon.Parallel(m, 6, func(k int) { judge(n + k) })
+	for k, v := range p2.Hits() {
+		r.Event("micro_hook:"+k, v) // pc.do.beforeQueue = calls that got past DoDeadline's entry check
 	}
 	if !r.Replaying() {
 		r.Require("deadline_calls_judged", n*4)
@@ -609,5 +707,7 @@ func TestC38(t *testing.T) {
 		r.Require("overflow_ids_checked_against_server_log", n/10)
 		r.Require("result_conn-error", n/10)
 		r.Require("hook:pc.writer.beforeWrite", n)
+		r.Require("micro_deadline_calls_judged", m*24*40/2)
+		r.Require("micro_hook:pc.do.beforeQueue", m*20)
 	}
 }
